@@ -438,6 +438,11 @@ func (s *Scenario) buildWorld(W string, src []byte, image []byte) (*worldPaths, 
 		wp.LstArg = filepath.Join(W, "out", "list.lst")
 	case "parent_missing":
 		wp.LstArg = filepath.Join(W, "nolist", "list.lst")
+	case "same_as_dst": // the list path names the output itself: still a creatable path
+		wp.LstArg = wp.DstArg
+	case "existing": // an existing listing from an earlier build
+		wp.LstArg = filepath.Join(W, "out", "list.lst")
+		must(os.WriteFile(wp.LstArg, []byte("old listing\n"), 0644))
 	}
 	if s.Uid != 0 {
 		// hand the world to the unprivileged user, except the objects whose point is that it cannot touch them
@@ -543,7 +548,7 @@ func (s *Scenario) expect(imageClass string, nlines int, fired int) expectation 
 		return e
 	case "src-dst":
 	case "src-dst-lst":
-		if s.LstKind != "ok" {
+		if s.LstKind != "ok" && s.LstKind != "same_as_dst" && s.LstKind != "existing" {
 			e.Why = "third positional not creatable: only G1/G2"
 			return e
 		}
